@@ -310,6 +310,21 @@ def _short(o):
     return {k: v for k, v in o.items() if k not in ("op", "out")}
 
 
+def own_point(h, name):
+    """The live corner array of the handle's own region / of one of its subregions."""
+    obj = h.obj
+    mesh = obj if h.kind == "M" else (obj.mesh if h.kind == "F" else None)
+    reg = obj if h.kind == "R" else mesh.region
+    parts = name.split(":")
+    if parts[0] == "sub":
+        subs = list(mesh.subregions.values()) if mesh is not None else []
+        if int(parts[1]) >= len(subs):
+            return None
+        reg = subs[int(parts[1])]
+        parts = parts[2:]
+    return getattr(reg, parts[0])
+
+
 @op("translate")
 def op_translate(st, o):
     h = st.h[o["on"]]
@@ -333,8 +348,14 @@ def op_scale(st, o):
     ref = o.get("ref")
     if (isinstance(f, list) and len(f) != nd) or (ref is not None and len(ref) != nd):
         return "skipped"
-    st.touch(ref)
     kw = {} if ref is None else {"reference_point": list(ref)}
+    if o.get("ref_own"):
+        arr = own_point(h, o["ref_own"])
+        if arr is None:
+            return "skipped"
+        ref, kw = [float(x) for x in arr], {"reference_point": arr}
+        st.stats.probe("reference_is_own_corner_array")
+    st.touch(ref)
     farg = dec(o["farg"]) if "farg" in o else (list(f) if isinstance(f, list) else f)
     return _transform(st, o, "scale", (farg,), kw, lambda m: m.scale(f, ref))
 
@@ -355,10 +376,16 @@ def op_rotate90(st, o):
         return "skipped"
     if h.kind == "M" and o.get("inplace") and st.fields_on(h.box):
         return "skipped"  # policy P3
-    st.touch(ref)
     kw = {"k": k}
     if ref is not None:
         kw["reference_point"] = list(ref)
+    if o.get("ref_own"):
+        arr = own_point(h, o["ref_own"])
+        if arr is None:
+            return "skipped"
+        ref, kw["reference_point"] = [float(x) for x in arr], arr
+        st.stats.probe("reference_is_own_corner_array")
+    st.touch(ref)
     return _transform(
         st,
         o,
@@ -368,6 +395,50 @@ def op_rotate90(st, o):
         lambda m: m.rotate90(ia, ib, k, ref),
         lambda fm, m: rot_field_model(fm, m, ia, ib, k, ref),
     )
+
+
+@op("collapse")
+def op_collapse(st, o):
+    """A step with an extreme but well-formed argument (far translation, far reference point, tiny
+    factor) on a mesh with subregions: rounding may collapse a small subregion while the region
+    itself survives. Whether it does is the library's arithmetic, so the COPYING form decides: if
+    it refuses the step, the in-place form must refuse it too and leave the mesh as it was
+    (C13: rejected in both forms without modifying the object). If the copying form accepts, the
+    step is outside the band the model follows and nothing further is done."""
+    s = o["on"]
+    h = st.h[s]
+    if h.kind != "M" or not h.box.v.subs:
+        return "skipped"
+    method = o["method"]
+    if method == "rotate90" and (st.fields_on(h.box) or rot_axes(h.box.v.region, *o["args"][:2]) is None):
+        return "skipped"  # P3
+    nd = h.box.v.region.ndim
+    args = [dec(a) for a in o["args"]]
+    kwargs = {k: dec(v) for k, v in o.get("kwargs", {}).items()}
+    if any(isinstance(v, list) and len(v) != nd for v in list(args) + list(kwargs.values())):
+        return "skipped"
+    res = sut(getattr(h.obj, method), *args, **kwargs)
+    st.check_refines(s, h)  # the copying form never touches the original
+    if not res.raised:
+        st.stats.hit("observed/collapse_candidate_accepted:" + method)
+        return "copy-accepted"
+    st.stats.fault("rejected_args")
+    st.stats.oracle("F")
+    res2 = sut(getattr(h.obj, method), *args, inplace=True, **kwargs)
+    why = "subregion degenerate by rounding"
+    if not res2.raised:
+        raise Violation("reject.accepted", f"Mesh.{method}(*{o['args']}, **{o.get('kwargs', {})}) is refused by the copying form ({type(res.e).__name__}: {str(res.e)[:120]}) but accepted in place", preds=["M", method, "inplace", why], kind="F")
+    try:
+        st.check_refines(s, h)
+        if st.invariants:
+            st.check_invariants(s, h)
+        for s2 in st.sharers(h.box, but=s):
+            st.check_refines(s2, st.h[s2])
+    except Violation as v:
+        raise Violation("reject.modified", f"Mesh.{method}(*{o['args']}, **{o.get('kwargs', {})}, inplace=True) raised {type(res2.e).__name__} but modified the mesh: {v.message}", preds=["M", method, "inplace", why], kind="F") from None
+    st.stats.probe("refused_by_subregion_collapse")
+    st.extra["just_rejected"] = s
+    return "rejected"
 
 
 @op("reject")
